@@ -40,6 +40,10 @@ type lessWalker struct {
 	cls   map[string]valClass // VN of operand -> class
 	modes map[string]bool
 	steps int
+	// evaluation of a package predicate called by the comparison function (tol_U4.go): the walker of the callee
+	depth    int
+	onReturn func(ret *ssa.Return, from *ssa.BasicBlock)
+	cut      bool // the walk was given up somewhere (budget, loop): what it collected is incomplete
 }
 
 func (w *lessWalker) pred(name string, c valClass) int {
@@ -107,8 +111,13 @@ func (w *lessWalker) eval(v ssa.Value, from *ssa.BasicBlock) int {
 	case *ssa.Call:
 		if callee := x.Common().StaticCallee(); callee != nil && len(x.Common().Args) > 0 {
 			if c, ok := w.cls[w.p.VN(x.Common().Args[0])]; ok {
-				return w.pred(callee.Name(), c)
+				if t := w.pred(callee.Name(), c); t != triU {
+					return t
+				}
 			}
+			// a predicate of the package that wraps the Is… tests (isIntegerPair(a, b)): walked with the classes of the
+			// arguments bound to its parameters
+			return w.evalPredicateCall(x)
 		}
 	}
 	return triU
@@ -149,6 +158,7 @@ func (w *lessWalker) modeOf(v ssa.Value, from *ssa.BasicBlock) string {
 func (w *lessWalker) walk(b, from *ssa.BasicBlock, seen map[*ssa.BasicBlock]int) {
 	w.steps++
 	if w.steps > 20000 || seen[b] > 2 {
+		w.cut = true
 		return
 	}
 	seen[b]++
@@ -167,7 +177,9 @@ func (w *lessWalker) walk(b, from *ssa.BasicBlock, seen map[*ssa.BasicBlock]int)
 	case *ssa.Jump:
 		w.walk(b.Succs[0], b, seen)
 	case *ssa.Return:
-		if len(t.Results) == 1 {
+		if w.onReturn != nil {
+			w.onReturn(t, from)
+		} else if len(t.Results) == 1 {
 			w.modes[w.modeOf(t.Results[0], from)] = true
 		}
 	}
